@@ -26,6 +26,11 @@ Proof.
   intros Hf. induction l as [|x l IH]; [apply le_refl|]. cbn [existsM].
   apply le_bind; [apply Hf|]. intros [|]; [apply le_refl | exact IH].
 Qed.
+Lemma le_forallM {A} (f1 f2 : A -> M bool) l : (forall x, le (f1 x) (f2 x)) -> le (forallM f1 l) (forallM f2 l).
+Proof.
+  intros Hf. induction l as [|x l IH]; [apply le_refl|]. cbn [forallM].
+  apply le_bind; [apply Hf|]. intros [|]; [exact IH | apply le_refl].
+Qed.
 Lemma le_allM {A} (f1 f2 : A -> M bool) l : (forall x, le (f1 x) (f2 x)) -> le (allM_noshort f1 l) (allM_noshort f2 l).
 Proof.
   intros Hf. induction l as [|x l IH]; [apply le_refl|]. cbn [allM_noshort].
@@ -64,13 +69,14 @@ Ltac le_step :=
   | |- le ?c ?c => apply le_refl
   | |- le (raise OutOfFuel) _ => apply le_raise
   | |- le (existsM _ _) (existsM _ _) => apply le_existsM; intros ?
+  | |- le (forallM _ _) (forallM _ _) => apply le_forallM; intros ?
   | |- le (allM_noshort _ _) (allM_noshort _ _) => apply le_allM; intros ?
   | |- le (sl_loop _ _ _ _) (sl_loop _ _ _ _) => apply le_sl_loop; intros ?
   | |- le (nth_core _ _ _ _ _ _) (nth_core _ _ _ _ _ _) => apply le_nth_core; intros ?
   | |- le (bindM _ _) (bindM _ _) => apply le_bind; [| intros ?]
   | H : forall e p l, le (match_selectors _ _ _ e p l) _ |- le (match_selectors _ _ _ _ _ _) _ => apply H
   | H : forall e p r, le (match_relations _ _ _ e p r) _ |- le (match_relations _ _ _ _ _ _) _ => apply H
-  | H : forall e p n, le (match_nth _ _ _ e p n) _ |- le (match_nth _ _ _ _ _ _) _ => apply H
+  | H : forall e p n, le (match_nth1 _ _ _ e p n) _ |- le (match_nth1 _ _ _ _ _ _) _ => apply H
   | H : forall e p tag ids classes attrs nth subs relation contains lang flags, le (match_compound _ _ _ e p tag ids classes attrs nth subs relation contains lang flags) _
     |- le (match_compound _ _ _ _ _ _ _ _ _ _ _ _ _ _ _) _ => apply H
   | |- le (if ?b then _ else _) (if ?b then _ else _) => destruct b
@@ -78,8 +84,8 @@ Ltac le_step :=
   | |- le (let '(_, _) := ?x in _) _ => destruct x
   end.
 
-Ltac unf1 := cbn [match_selectors match_compound match_relations match_nth];
-             fold (match_compound bidi cx) (match_selectors bidi cx) (match_relations bidi cx) (match_nth bidi cx).
+Ltac unf1 := cbn [match_selectors match_compound match_relations match_nth1];
+             fold (match_compound bidi cx) (match_selectors bidi cx) (match_relations bidi cx) (match_nth1 bidi cx).
 (* unfold each side exactly once: the left one while the right one is hidden, then the right one with its inner fuel abstracted *)
 Ltac unf f :=
   match goal with |- le ?L ?R => let r := fresh "r" in set (r := R); unf1; subst r end;
@@ -91,7 +97,7 @@ Theorem fuel_step : forall fuel,
      le (match_compound bidi cx fuel e p tag ids classes attrs nth subs relation contains lang flags)
         (match_compound bidi cx (S fuel) e p tag ids classes attrs nth subs relation contains lang flags)) /\
   (forall e p relation, le (match_relations bidi cx fuel e p relation) (match_relations bidi cx (S fuel) e p relation)) /\
-  (forall e p nth, le (match_nth bidi cx fuel e p nth) (match_nth bidi cx (S fuel) e p nth)).
+  (forall e p n, le (match_nth1 bidi cx fuel e p n) (match_nth1 bidi cx (S fuel) e p n)).
 Proof.
   induction fuel as [|f (IHs & IHc & IHr & IHn)].
   - repeat split; intros; apply le_raise.
@@ -107,7 +113,7 @@ Proof.
         intros n. induction n as [|n IHup]; intros q; [apply le_refl|].
         cbv beta iota. repeat le_step. apply IHup. }
       repeat le_step.
-    + intros e p nth. unf f. destruct nth as [|[a var b of_type last s] rest]; [apply le_refl|].
+    + intros e p n. unf f. destruct n as [a var b of_type last s].
       repeat le_step.
 Qed.
 
